@@ -239,7 +239,7 @@ def build_oracle():
         return binp
 
 
-def run_oracle(mode, jobs, name, timeout=1800):
+def run_oracle(mode, jobs, name, timeout=1800, partial_ok=False):
     binp = build_oracle()
     jp = os.path.join(WORK, name + ".ojobs.jsonl")
     rp = os.path.join(WORK, name + ".ores.jsonl")
@@ -249,8 +249,16 @@ def run_oracle(mode, jobs, name, timeout=1800):
             f.write(json.dumps(j) + "\n")
     if os.path.exists(rp):
         os.remove(rp)
-    p = subprocess.run([binp, mode, jp, rp], env=env(), stdout=subprocess.PIPE,
-                       stderr=subprocess.PIPE, text=True, timeout=timeout)
+    try:
+        p = subprocess.run([binp, mode, jp, rp], env=env(), stdout=subprocess.PIPE,
+                           stderr=subprocess.PIPE, text=True, timeout=timeout)
+    except subprocess.TimeoutExpired:
+        # (a wall-clock watchdog, never a verdict)
+        if partial_ok and os.path.exists(rp):
+            log("[oracle] %s timed out after %ds: using the results written so far" % (
+                mode, timeout))
+            return read_jsonl(rp)
+        raise Inconclusive("oracle %s timed out after %d s" % (mode, timeout))
     if p.returncode != 0:
         raise Inconclusive("oracle %s failed rc=%s: %s" % (mode, p.returncode, p.stderr[-3000:]))
     return read_jsonl(rp)
